@@ -881,6 +881,13 @@ func (c *Ctx) String(t *Term) string {
 	return sb.String()
 }
 
+// StringDeep prints with a larger depth (debugging).
+func (c *Ctx) StringDeep(t *Term, depth int) string {
+	var sb strings.Builder
+	c.str(&sb, t, depth)
+	return sb.String()
+}
+
 func (c *Ctx) str(sb *strings.Builder, t *Term, depth int) {
 	switch t.Op {
 	case OpConst:
